@@ -173,6 +173,23 @@ def channel_items(tier):
         if nr * nt <= (6 if thorough else 4):
             for i, Hi in enumerate(F.small_entry_matrices((nr, nt), (0, 1, -1))):
                 yield ("rint3", i, Hi.real.astype(np.int64))
+    # PAIRWISE combinations of the axes that are otherwise varied one at a time around the default
+    # (complex128, unit magnitude, generic): real dtype x {nearly dependent, nearly tied, scaled}, integer x scaled
+    for (nr, nt) in [(1, 1), (2, 2), (3, 2), (4, 4), (1, 3), (3, 1), (6, 5)]:
+        for s in range(4 if thorough else 2):
+            R = F.generic(s, (nr, nt), False, tag=45)
+            for g in SCALES:
+                yield ("real_f64@%g" % g, s, g * R)
+            yield ("int64@1000", s, np.rint(4 * R).astype(np.int64) * 1000)
+            if nt >= 2 and nr >= nt:
+                for kappa in (1e2, 1e4):
+                    yield ("real_neardep%g" % kappa, s,
+                           real_with_singular_values(s, (nr, nt), [kappa ** (-i / (nt - 1)) for i in range(nt)]))
+                for pi, prof in enumerate(near_tied_profiles(nt)[:2]):
+                    yield ("real_neartied%d" % pi, s,
+                           real_with_singular_values(s, (nr, nt), np.sort(prof)[::-1]))
+                    yield ("real_neartied%d@1e-09" % pi, s,
+                           1e-9 * real_with_singular_values(s, (nr, nt), np.sort(prof)[::-1]))
     # larger arrays, Nr in 5..6 (thorough ..8): generic and nearly dependent members only.  The GMD
     # permutation bookkeeping (and any per-column loop) only shows its full behaviour for Nt >= 5.
     Sb = 60 if thorough else 24
@@ -209,6 +226,18 @@ def fam_scale(fam):
 
 DTYPE_FAMS = ("real_f64", "real_f32", "int64", "complex64", "rint3")
 DKINDS = ("c128", "f64", "i64")
+
+
+def is_dtype_fam(fam):
+    return fam.split("@")[0] in DTYPE_FAMS or fam.startswith("real_")
+
+
+def real_with_singular_values(s, shape, sv):
+    """real matrix with prescribed singular values (orthogonal factors from real generic members)"""
+    m, n = shape
+    U = np.linalg.qr(F.generic(s, (m, m), False, tag=46))[0]
+    V = np.linalg.qr(F.generic(s + 50, (n, n), False, tag=47))[0]
+    return (U[:, :n] * np.asarray(sv, dtype=float)) @ V.T
 
 
 def data_vec(L, kind="c128"):
@@ -312,7 +341,7 @@ def run_roundtrip(chk, case):
         r = None
         # three consecutive rounds over the SAME object and channel (no setter in between): every round must
         # return the data, and neither the array handed to the object, nor the channel it holds, nor y may change
-        for rnd in ((1, 2, 3) if (nblk == 1 or case["fam"] in DTYPE_FAMS) else (1,)):
+        for rnd in ((1, 2, 3) if (nblk == 1 or is_dtype_fam(case["fam"])) else (1,)):
             r = np.asarray(obj.decode(y))
             if not N.close(r, d, kappa, CR):
                 how = classify_mismatch(r, d.astype(complex))
@@ -601,7 +630,7 @@ def run_item(chk, fam, member, H):
     base = {"fam": fam, "member": member, "H": H}
     if in_bound and not low_prec:
         run_filters(chk, dict(base, part="filters", kappa=kappa))
-    dkinds = DKINDS if fam in DTYPE_FAMS else DKINDS[:1]
+    dkinds = DKINDS if is_dtype_fam(fam) else DKINDS[:1]
     for scheme, form in schemes_for(nr, nt):
         scalar_equiv = scheme in ("Alamouti", "MRT")
         if not scalar_equiv and not in_bound:
@@ -1039,6 +1068,17 @@ def main(chk: Check):
     chk.assume("the channel is applied by the harness as H @ encode(d), noise free; decode uses noise_var=0 (ZF)")
     chk.assume("history part: set_noise_var(None) means 0.0 (documented); negative values (documented ValueError) "
                "are not part of the event alphabet; SVDMimo.decode ignores the noise variance (ZF always)")
+    chk.extra["axes"] = {
+        "scheme": ["Blast", "MRC", "SVDMimo", "GMDMimo", "MRT", "Alamouti"],
+        "shape_class": ["1x1", "Nr>Nt", "Nr==Nt", "1xNt", "Nrx1", "up to 6x6 (thorough 8x8)", "1-D forms"],
+        "channel_structure": ["exhaustive small entries", "generic", "nearly dependent", "nearly tied"],
+        "channel_dtype": ["complex128", "complex64", "float64", "float32", "int64"],
+        "magnitude": [1.0] + list(SCALES),
+        "data": ["complex128", "float64", "int64", "0..3 blocks"],
+        "memory_layout": ["C", "F", "read-only C", "read-only transposed view"],
+        "pairwise": "every two of {structure, dtype(real/int vs complex), magnitude, shape class, layout, data kind} "
+                    "occur together at their unusual values (families real_f64@g, int64@1000, real_neardep*, "
+                    "real_neartied*[@1e-09], neartied*@g, generic@g, dtype families x data kinds x layouts)"}
     chk.extra["tolerances"] = {"roundtrip_energy_zf": "err <= %g*2^-52*kappa*scale" % C_RT,
                                "mmse": "err <= %g*2^-52*kappa^2*scale" % C_MMSE,
                                "kappa_max": KAPPA_MAX, "sigma2": list(SIGMA2)}
